@@ -22,6 +22,10 @@ m("C07","postfile-existence-check-other-height","x/storage/keeper/msg_server_pos
 benign("C07","removal-refunds-nonpositive",[("x/storage/keeper/files.go",'if file.Expires == 0 { // a plan-paid file','if file.Expires <= 0 { // a plan-paid file')])
 benign("C07","post-branches-on-nonzero",[("x/storage/keeper/msg_server_post_file.go",'if msg.Expires > 0 { // if the file is posted as a one-time payment','if msg.Expires != 0 { // if the file is posted as a one-time payment')])
 
+# ---- C04 self-referral compared as text (inverse of fix a999e8ce)
+m("C04","self-referral-compared-as-text","x/storage/keeper/msg_server_buy_storage.go",
+  'if !refAcc.Equals(creatorAcc) {','if refAcc.String() != msg.Creator {',"C04/R6","storage.MsgBuyStorage:referrer-distinctness-on-addresses","inverse of fix a999e8ce")
+
 # ---- independent seeded changes as corpus entries
 from_patch("C10","seed-reset-early-return","seeded/C10-reset-early-return/patch.diff","C10/R5","success-implies-change","seed")
 from_patch("C11","seed-feed-created-under-trimmed-name","seeded/C11-feed-created-under-trimmed-name/patch.diff","C11/R6","oracle.MsgCreateFeed:absent-check-key=written-key","seed")
@@ -385,7 +389,7 @@ benign("C08","buy-checks-reordered",[
 ])
 
 # ---- round 2 of independent seeded changes
-from_patch("C01","seed2-sweep-shares-scratch-prover-slice","seeded/C01-sweep-shares-scratch-prover-slice/patch.diff","C01/R5","rewards:credited-key","seed round 2")
+from_patch("C01","seed2-sweep-shares-scratch-prover-slice","seeded/C01-sweep-shares-scratch-prover-slice/patch.diff","C01/R5","iterated-list=file-list","seed round 2")
 from_patch("C03","seed2-sweep-shares-scratch-prover-slice","seeded/C01-sweep-shares-scratch-prover-slice/patch.diff","C03/R5","iterated-list=file-list","seed round 2 (written against C01)")
 from_patch("C03","seed2-burn-counter-from-cached-provider-record","seeded/C03-burn-counter-from-cached-provider-record/patch.diff","C03/R7","burn-from-fresh-read","seed round 2")
 from_patch("C04","seed2-commission-from-pre-upgrade-price","seeded/C04-commission-from-pre-upgrade-price/patch.diff","C04/R8","cut-from-current-payment:referrer","seed round 2")
@@ -967,6 +971,29 @@ func (k msgServer) BuyStorage("""),
 # ---- behaviour-preserving refactors written by independent sub-agents (benign/<prop>/*.diff): each is run against
 # every property whose check reads the module(s) the diff touches
 import glob
+# ---- independent seeded changes, round 5
+from_patch("C03","seed5-burn-error-keeps-prover","seeded/C01-burn-error-keeps-prover/patch.diff","C03/R2","rewards:path-classes","seed round 5")
+from_patch("C02","seed5-verifier-hex-chunk-index","seeded/C02-verifier-hex-chunk-index/patch.diff","C02/R1","leaf-encoding:builder≡verifier","seed round 5")
+from_patch("C03","seed5-young-by-current-proof-window","seeded/C03-young-by-current-proof-window/patch.diff","C03/R2","rewards:burn-guard","seed round 5")
+from_patch("C02","seed5-young-by-current-proof-window","seeded/C03-young-by-current-proof-window/patch.diff","C02/R3","rewards:burn-only-on-miss","seed round 5")
+from_patch("C04","seed5-param-pairs-crossed","seeded/C04-param-pairs-crossed/patch.diff","C04/R10","storage:param-key:POLRatio","seed round 5")
+from_patch("C05","seed5-total-size-narrowed-from-bigint","seeded/C05-total-size-narrowed-from-bigint/patch.diff","C05/R6","ManageRewards:narrowing","seed round 5")
+from_patch("C06","seed5-upgrade-prorated-by-wall-clock","seeded/C06-upgrade-prorated-by-wall-clock/patch.diff","C06/R1","UpgradeStorage:time.Until","seed round 5")
+from_patch("C07","seed5-wasm-post-skips-validate","seeded/C07-wasm-post-skips-validate/patch.diff","C07/R3","wasm:storage.MsgPostFile:validate-basic","seed round 5")
+from_patch("C08","seed5-forsale-key-drops-tld","seeded/C08-forsale-key-drops-tld/patch.diff","C08/R5","ForsaleKey:key-builder-injective","seed round 5")
+from_patch("C09","seed5-cancel-accept-stricter-name-check","seeded/C09-cancel-accept-stricter-name-check/patch.diff","C09/R8","MsgCancelBid:accepts-what-MsgBid-accepted:Name","seed round 5")
+from_patch("C10","seed5-reset-viewers-unescaped-json","seeded/C10-reset-viewers-unescaped-json/patch.diff","C10/R5","filetree.MsgResetViewers:reset-leaves-owner-entry-only","seed round 5")
+from_patch("C11","seed5-wasm-post-validates-copy-executes-original","seeded/C11-wasm-post-validates-copy-executes-original/patch.diff","C11/R4","wasm:storage.MsgPostFile:creator-is-contract","seed round 5")
+from_patch("C04","seed5-gauge-lookup-wrong-prefix","seeded/C12-gauge-lookup-wrong-prefix/patch.diff","C04/R2","gauge-constructor:records-argument","seed round 5")
+from_patch("C06","seed5-shares-in-float","seeded/C13-shares-in-float/patch.diff","C06/R4","shareOf:float-flow","seed round 5")
+from_patch("C14","seed5-form-key-ignores-owner","seeded/C14-form-key-ignores-owner/patch.diff","C14/R9","AttestationKey:key-builder-injective","seed round 5")
+from_patch("C15","seed5-app-wires-collateral-account-as-fee-collector","seeded/C15-app-wires-collateral-account-as-fee-collector/patch.diff","C15/R7","app:storage-keeper:fee-collector-name","seed round 5")
+from_patch("C17","seed5-postproof-any-lookup-error-means-new-prover","seeded/C17-postproof-any-lookup-error-means-new-prover/patch.diff","C17/R3","append-only-if-absent","seed round 5")
+from_patch("C18","seed5-setter-compacts-contents","seeded/C18-setter-compacts-contents/patch.diff","C18/R8","SetNotification:setter-faithful","seed round 5")
+from_patch("C19","seed5-owner-index-written-once","seeded/C19-owner-index-written-once/patch.diff","C19/R9","setFileSecondary:setter-faithful","seed round 5")
+from_patch("C16","seed5-price-table-off-by-one","seeded/C16-price-table-off-by-one/patch.diff","C16/R9","table-entries-reachable","seed round 5")
+from_patch("C20","seed5-cli-path-through-runes","seeded/C20-cli-path-through-runes/patch.diff","C20/R4","hashes-the-given-path","seed round 5")
+
 _MODPROPS = {
  "x/storage": ["C01","C02","C03","C04","C05","C06","C07","C12","C14","C15","C17","C19"],
  "x/rns": ["C08","C09","C16","C11","C19"],
